@@ -39,8 +39,10 @@ func validateNoOpenTokens(token *token) error {
 func (p *expressionPostFixerImpl) ConvertToPostfix(infixTokens []*token) ([]*Operation, error) {
 	var result []*Operation
 	// surround the whole thing with brackets
-	var opStack = []*token{{TokenType: openBracket}}
-	var tokens = append(infixTokens, &token{TokenType: closeBracket})
+	var outerOpen = &token{TokenType: openBracket}
+	var outerClose = &token{TokenType: closeBracket}
+	var opStack = []*token{outerOpen}
+	var tokens = append(infixTokens, outerClose)
 
 	for _, currentToken := range tokens {
 		log.Debugf("postfix processing currentToken %v", currentToken.toString(true))
@@ -104,6 +106,10 @@ func (p *expressionPostFixerImpl) ConvertToPostfix(infixTokens []*token) ([]*Ope
 				opStack, result = popOpToResult(opStack, result)
 			}
 			if len(opStack) == 0 {
+				return nil, errors.New("bad expression, got close brackets without matching opening bracket")
+			}
+			// the brackets put around the whole expression only match each other: `.a )(` is not `( .a )( )`
+			if opStack[len(opStack)-1] == outerOpen && currentToken != outerClose {
 				return nil, errors.New("bad expression, got close brackets without matching opening bracket")
 			}
 			// now we should have ( as the last element on the opStack, get rid of it
